@@ -154,6 +154,17 @@ Theorem C04_known_class_each_clause_refuted :
   /\ kf_leading_ws_after_numeric space kf_witness = false.
 Proof. exact kf_clause_witnesses. Qed.
 
+(* ---- second known class: a finite binary64 whose 16-digit text exceeds the largest finite value is read back as an
+   infinity (the largest finite double and its predecessor, either sign).  For the modelled printf/strtod with the
+   precision of records.cpp the contract H_num FAILS on such a cell: 1.7976931348623157e308 prints as
+   1.797693134862316e+308, which strtod rounds to +inf *)
+Theorem C04_float_print_overflow_witness :
+  table_ok w_dblmax /\ kf_float_print_overflow F16 P_model w_dblmax = true /\ fcontract_b F16 P_model w_dblmax = false
+  /\ F16 8 [xff; xff; xff; xff; xff; xff; xef; x7f]
+     = [x31; x2e; x37; x39; x37; x36; x39; x33; x31; x33; x34; x38; x36; x32; x33; x31; x36; x65; x2b; x33; x30; x38]
+  /\ P_model 8 (F16 8 [xff; xff; xff; xff; xff; xff; xef; x7f]) = [x00; x00; x00; x00; x00; x00; xf0; x7f].
+Proof. vm_compute. repeat split; reflexivity. Qed.
+
 (* ---- the stored header records the delimiter and a byte-order-free dtype *)
 Theorem C04_header : forall d t, header_ok d t (header_delim d, header_dtype (tdt t)).
 Proof. exact header_model_ok. Qed.
